@@ -148,9 +148,26 @@ def _build_unit(pid, uname, u, d):
         reached = [f for f in functions_reached(txt, entries) if not f.startswith('vp_')]
         funcs = [x for x in demangle(reached) if x and not x.startswith('std::') and not x.startswith('__gnu') and not x.startswith('operator')]
         os.remove(os.path.join(d, 'w0.ll'))
+    if u.get('ptratomics'):   # retype pointer-valued i64 atomics/phis as pointers (tools/ptratom.py): keeps cbmc's pointer analysis precise
+        rc, out, dt, to = sh([sys.executable, os.path.join(TOOLS, 'ptratom.py'), os.path.join(d, 'w.ll'), os.path.join(d, 'w.ll')], timeout=300)
+        if rc != 0: raise Inconclusive('ptratom failed for %s:\n%s' % (u['wrapper'], out[-3000:]))
     src = 'w.ll'
     if u.get('mode') == 'lcs':
         K = u.get('unroll', 1)
+        if K > 1 and u.get('force_unroll', True):
+            # clang -O1 tags every loop with llvm.loop.unroll.disable, which opt's -unroll-count honours (K>1 is then a no-op);
+            # the tag is neutralised whenever unroll > 1 so that `unroll` really unrolls K times (force_unroll=False restores the no-op)
+            ll = os.path.join(d, 'w.ll'); txt = open(ll).read()
+            open(ll, 'w').write(txt.replace('!"llvm.loop.unroll.disable"', '!"llvm.loop.vp.unroll.tag.removed"'))
+        if u.get('full_unroll'):
+            # full_unroll=N: loops with a constant trip count <= N are unrolled completely first (no back edge left to cut), e.g. a fixed
+            # 7-iteration publication loop inside a thread body; loops with unknown trip count are left to the K-unroll below
+            ll = os.path.join(d, 'w.ll'); txt = open(ll).read()
+            open(ll, 'w').write(txt.replace('!"llvm.loop.unroll.disable"', '!"llvm.loop.vp.unroll.tag.removed"'))
+            rc, out, dt, to = sh(['opt-14', '-enable-new-pm=0', '-loop-simplify', '-lcssa', '-loop-unroll', '-unroll-threshold=100000',
+                                  '-unroll-full-max-count=%d' % int(u['full_unroll']), '-unroll-allow-partial=false', '-unroll-runtime=false',
+                                  '-unroll-allow-peeling=false', '-simplifycfg', '-S', ll, '-o', ll], timeout=300)
+            if rc != 0: raise Inconclusive('opt (full unroll) failed:\n' + out[-3000:])
         rc, out, dt, to = sh(['opt-14', '-enable-new-pm=0', '-loop-simplify', '-lcssa', '-loop-unroll', '-unroll-count=%d' % K,
                               '-unroll-allow-partial', '-unroll-threshold=100000', '-unroll-partial-threshold=100000',
                               '-simplifycfg', '-S', os.path.join(d, 'w.ll'), '-o', os.path.join(d, 'w.u.ll')], timeout=300)
@@ -159,7 +176,14 @@ def _build_unit(pid, uname, u, d):
     cmd = [sys.executable, os.path.join(TOOLS, 'ir2c.py'), os.path.join(d, src), os.path.join(d, 'w')]
     if u.get('tso'): cmd.append('--tso')
     if u.get('prune'): cmd.append('--prune')
+    if u.get('fallthrough'): cmd.append('--fallthrough')   # lcs: cut back edges continue along the loop exit with the slice disabled (fewer merges at END)
+    if u.get('m1ptr'): cmd.append('--m1ptr')   # sentinel pointer (T*)-1 as the address of an object (flow graph SUCCESSFULLY_ENQUEUED)
+    if u.get('looporder'): cmd.append('--looporder')   # seq mode: contiguous loop layout for cbmc
+    if u.get('lvalpath'): cmd.append('--lvalpath')   # loads/stores through GEP results emitted on the field-path lvalue (see ir2c.py LVALPATH)
+    if u.get('ptrhooks'): cmd.append('--ptrhooks')   # inttoptr/ptrtoint via harness hooks vp_i2p/vp_p2i
     for c in cuts: cmd += ['--cut', c]
+    for c in u.get('immutable', []): cmd += ['--immutable', c]   # regex on lvalue paths (with lvalpath): loads of these never-changing locations are not scheduling points
+    for c in u.get('pure', []): cmd += ['--pure', c]   # side-effect-free deterministic stubs: not a scheduling point, re-evaluated on replay
     for fn, sfx in (u.get('threads') or {}).items():
         cmd += ['--thread', fn + (':' + ','.join(sfx) if sfx and sfx != [''] else '')]
     rc, out, dt, to = sh(cmd, timeout=300)
@@ -195,7 +219,7 @@ def parse_cbmc(out):
     if m: st['symex_s'] = float(m.group(1))
     return props, st
 
-def classify(rc, out, to, props):
+def classify(rc, out, to, props, fail_over_unwind=False):
     """-> ('pass'|'fail'|'inconclusive', detail, failing property ids)"""
     if to: return 'inconclusive', 'timeout', []
     if 'VERIFICATION' not in out:
@@ -205,7 +229,10 @@ def classify(rc, out, to, props):
     wit = [k for k, p in props.items() if p['desc'] == 'VP_WITNESS']
     unw = [k for k, p in props.items() if 'unwinding assertion' in p['desc'] and p['status'] != 'SUCCESS']
     fails = [k for k, p in props.items() if p['status'] != 'SUCCESS' and p['desc'] != 'VP_WITNESS' and k not in unw]
-    if unw: return 'inconclusive', 'unwinding bound too small: %s' % unw[:3], []
+    fails.sort(key=lambda k: props[k]['status'] != 'FAILURE')   # replay a definite FAILURE first (cbmc reports sibling checks as UNKNOWN)
+    # harness key fail_over_unwind=True (opt-in, seq harnesses): a failing assertion is a real bounded execution even if some loop
+    # also exceeds its bound (typical for a runaway loop that first walks out of an array); it still has to reproduce natively
+    if unw and not (fail_over_unwind and fails): return 'inconclusive', 'unwinding bound too small: %s' % unw[:3], []
     nobody = [p['desc'] for k, p in props.items() if p['desc'].startswith('no body for') and p['status'] != 'SUCCESS']
     if nobody: return 'inconclusive', 'reachable call without a stub: %s' % nobody[:5], []
     if fails: return 'fail', '; '.join('%s: %s' % (k, props[k]['desc']) for k in fails[:5]), fails
@@ -227,6 +254,7 @@ def native_build(h, udir, pid, defines, outbin, extra_defs=()):
            '-I', udir, '-I', RT, '-I', os.path.join(VERIF, 'props', pid)]
     for k, v in defines.items():
         cmd.append('-D%s=%s' % (k, v) if v is not None else '-D' + k)
+    cmd += list(h.get('native_cflags', []))   # e.g. -fno-sanitize=null: thread-mode code forms &p->f from a not-yet-loaded (null) static temp without accessing it
     cmd += list(extra_defs) + [hsrc, os.path.join(udir, 'w.c'), os.path.join(RT, 'native.c'), '-Wl,--unresolved-symbols=ignore-all', '-no-pie', '-o', outbin]
     return sh(cmd, timeout=600)
 
@@ -247,7 +275,7 @@ def run_query(pid, spec, h, sc, bdir, tier):
     cmd = cbmc_cmd(h, unit['dir'], pid, defines)
     rc, out, dt, to = sh(cmd, timeout=h.get('timeout', 600), mem_gb=h.get('mem_gb', 12))
     props, st = parse_cbmc(out)
-    status, detail, fails = classify(rc, out, to, props)
+    status, detail, fails = classify(rc, out, to, props, h.get('fail_over_unwind', False))
     res.update(status=status, detail=detail, stats=st, wall_s=round(dt, 2), n_assertions=len(props),
                unit_dir=unit['dir'], functions=unit['functions'], unit_summary=unit['summary'], defines=defines)
     if status == 'inconclusive' and os.environ.get('VP_DEBUG'):
